@@ -678,7 +678,7 @@ namespace internal
 
 		void Remove(size_t index, size_t count = 1)
 		{
-			MOMO_CHECK(index + count <= GetCount());
+			MOMO_CHECK(index <= GetCount() && count <= GetCount() - index);
 			mRaws.Remove(index, count);
 		}
 
